@@ -667,7 +667,8 @@ func (f *FnEnc) doLookup(x *ssa.Lookup) {
 	m := f.val(x.X).T
 	k := f.val(x.Index).T
 	mc, hc := f.e.reg.mapComp(mt)
-	has := fmt.Sprintf("(select (select %s %s) %s)", f.comp(hc), m, k)
+	// a nil map has no keys (reading it is legal in Go and finds nothing)
+	has := fmt.Sprintf("(and (not (= %s 0)) (select (select %s %s) %s))", m, f.comp(hc), m, k)
 	zero := f.e.reg.zeroOf(mt.Elem())
 	v := fmt.Sprintf("(ite %s (select (select %s %s) %s) %s)", has, f.comp(mc), m, k, zero)
 	s := f.e.reg.sortOf(mt.Elem())
